@@ -23,7 +23,7 @@ import (
 
 // C20: generated glyph names are complete, unique, stable and PostScript-safe.
 
-var c20NameMenu = []string{"", "A", "dup", ".notdef", "a b", "f_i", "B"}
+var c20NameMenu = []string{"", "A", "dup", ".notdef", "a b", "f_i", "B", "orn001"}
 
 func c20Font(c *explore.Ctx) (*sfnt.Font, []string, string) {
 	n := 5
